@@ -42,6 +42,8 @@ pub mod map {
     pub const GET_ABSENT: u16 = 35;
     pub const RAW_ENTRY_RO: u16 = 36;
     pub const REHASH_SETUP: u16 = 37;
+    pub const CAPPED_CHURN: u16 = 38;
+    pub const MIRROR_TO_OTHER: u16 = 39;
 }
 
 pub static MAP_OPS: &[OpSpec] = &[
@@ -83,11 +85,66 @@ pub static MAP_OPS: &[OpSpec] = &[
     OpSpec { code: map::GET_ABSENT, name: "get_absent", args: &[Small(4)] },
     OpSpec { code: map::RAW_ENTRY_RO, name: "raw_entry", args: &[Key, Choice(3)] },
     OpSpec { code: map::REHASH_SETUP, name: "rehash_setup", args: &[Small(6)] },
+    OpSpec { code: map::MIRROR_TO_OTHER, name: "mirror_to_other", args: &[Choice(3)] },
+    OpSpec { code: map::CAPPED_CHURN, name: "capped_churn", args: &[Small(64), Choice(5), Any, Bool] },
+];
+
+pub mod table {
+    pub const INSERT_UNIQUE: u16 = 0;
+    pub const INSERT_DUP: u16 = 1;
+    pub const FIND: u16 = 2;
+    pub const FIND_MUT: u16 = 3;
+    pub const FIND_ENTRY: u16 = 4;
+    pub const ENTRY: u16 = 5;
+    pub const RETAIN: u16 = 6;
+    pub const EXTRACT_IF: u16 = 7;
+    pub const DRAIN: u16 = 8;
+    pub const CLEAR: u16 = 9;
+    pub const RESERVE: u16 = 10;
+    pub const TRY_RESERVE: u16 = 11;
+    pub const SHRINK_TO_FIT: u16 = 12;
+    pub const SHRINK_TO: u16 = 13;
+    pub const GET_MANY_MUT: u16 = 14;
+    pub const ITER_HASH: u16 = 15;
+    pub const ITER: u16 = 16;
+    pub const CLONE_SWAP: u16 = 17;
+    pub const FILL_TO_CAPACITY: u16 = 18;
+    pub const REMOVE_RUN: u16 = 19;
+    pub const REMOVE_ALL_BUT: u16 = 20;
+    pub const REHASH_SETUP: u16 = 21;
+    pub const REMOVE_NTH: u16 = 22;
+}
+
+pub static TABLE_OPS: &[OpSpec] = &[
+    OpSpec { code: table::INSERT_UNIQUE, name: "insert_unique", args: &[Key, Val] },
+    OpSpec { code: table::INSERT_DUP, name: "insert_dup", args: &[Frac, Val] },
+    OpSpec { code: table::FIND, name: "find", args: &[Key] },
+    OpSpec { code: table::FIND_MUT, name: "find_mut", args: &[Key, Val] },
+    OpSpec { code: table::FIND_ENTRY, name: "find_entry", args: &[Key, Choice(7), Val] },
+    OpSpec { code: table::ENTRY, name: "entry", args: &[Key, Choice(8), Val] },
+    OpSpec { code: table::RETAIN, name: "retain", args: &[Any, Small(100), Bool] },
+    OpSpec { code: table::EXTRACT_IF, name: "extract_if", args: &[Any, Small(100), Frac, Bool] },
+    OpSpec { code: table::DRAIN, name: "drain", args: &[Frac, Choice(2)] },
+    OpSpec { code: table::CLEAR, name: "clear", args: &[] },
+    OpSpec { code: table::RESERVE, name: "reserve", args: &[Small(96)] },
+    OpSpec { code: table::TRY_RESERVE, name: "try_reserve", args: &[Small(96)] },
+    OpSpec { code: table::SHRINK_TO_FIT, name: "shrink_to_fit", args: &[] },
+    OpSpec { code: table::SHRINK_TO, name: "shrink_to", args: &[Frac] },
+    OpSpec { code: table::GET_MANY_MUT, name: "get_many_mut", args: &[Small(4), Key, Key, Key, Key, Choice(2)] },
+    OpSpec { code: table::ITER_HASH, name: "iter_hash", args: &[Key, Bool] },
+    OpSpec { code: table::ITER, name: "iter", args: &[Choice(3), Frac, Choice(6)] },
+    OpSpec { code: table::CLONE_SWAP, name: "clone_swap", args: &[Bool] },
+    OpSpec { code: table::FILL_TO_CAPACITY, name: "fill_to_capacity", args: &[] },
+    OpSpec { code: table::REMOVE_RUN, name: "remove_run", args: &[Frac, Small(40)] },
+    OpSpec { code: table::REMOVE_ALL_BUT, name: "remove_all_but", args: &[Small(12)] },
+    OpSpec { code: table::REHASH_SETUP, name: "rehash_setup", args: &[Small(6)] },
+    OpSpec { code: table::REMOVE_NTH, name: "remove_nth", args: &[Frac] },
 ];
 
 pub fn specs_for(kind: &str) -> &'static [OpSpec] {
     match kind {
         "map" => MAP_OPS,
+        "table" => TABLE_OPS,
         _ => &[],
     }
 }
